@@ -145,7 +145,7 @@ class TreeBuilder(ET.TreeBuilder):
         r"""<(?P<tag>[A-Z0-9./_ ]+?)>
                 ((\s*<!\[CDATA\[(?P<cdata>.+?)\]\]>\s*)|(?P<text>[^<]+))?
             (</(?P<closetag>(?P=tag))>)?
-            (?P<tail>[^<]+)?
+            (?P<tail>(?:[^<]|<!\[CDATA\[.*?\]\]>)+)?
         """,
         re.VERBOSE | re.DOTALL,
     )
